@@ -1860,6 +1860,52 @@ def rule_lc_marks(ctx, m):
                 for x in walk_expr(e):
                     if x[0] == 'call' and (dotted(x[1]) or '').split('.')[-1] in ('negative', 'abs', 'absolute', 'copyto') and any(k == 'out' for k, _ in x[3] if k):
                         restores.append(s)
+        # the restore is unconditional: kbest_matches marks cells on every path that inspects a candidate (also candidates it then discards), so a restore that
+        # runs only under a test of some object state (a `dirty` flag set on one of those paths) leaves the other marks in place
+        guards = []
+
+        def under(stmts, conds):
+            for s_ in stmts:
+                if s_.k == 'if':
+                    under(s_.then, conds + [s_.cond])
+                    under(s_.els or [], conds + [('un', 'not', s_.cond)])
+                    continue
+                is_restore = any(s_ is r_ for r_ in restores) or any(x[0] == 'call' and (dotted(x[1]) or '').split('.')[-1] == 'wps_positivize'
+                                                                     for e in stmt_exprs(s_) for x in walk_expr(e))
+                if is_restore:
+                    for c_ in conds:
+                        st_ = sorted({x[2] for x in walk_expr(c_) if x[0] == 'attr' and x[1] == ('var', 'self') and x[2] != 'compact'})
+                        if st_:
+                            guards.append((s_, st_))
+                for b_ in sub_blocks(s_):
+                    under(b_, conds)
+        under(g.body, [])
+        if guards:
+            # accepted: a flag that kbest_matches raises before it can mark anything -- `self.F = True` outside every `if`, ahead of the first mark in program order
+            order = []
+
+            def pre(stmts, in_if):
+                for s_ in stmts:
+                    order.append((s_, in_if))
+                    if s_.k == 'if':
+                        pre(s_.then, True)
+                        pre(s_.els or [], True)
+                    else:
+                        for b_ in sub_blocks(s_):
+                            pre(b_, in_if)
+            pre(f.body, False)
+            first_mark = next((i_ for i_, (s_, _) in enumerate(order) if s_.k == 'assign' and s_.target[0] == 'idx' and s_.target[1] == ('var', 'wp')
+                               and _reads_same(s_.value, s_.target)), len(order))
+
+            def raised_early(attr):
+                return any(i_ < first_mark and not in_if and s_.k == 'assign' and s_.target == ('attr', ('var', 'self'), attr) and s_.value in (('bool', True), ('num', 1))
+                           for i_, (s_, in_if) in enumerate(order))
+            guards = [(s_, [a_ for a_ in st_ if not raised_early(a_)]) for s_, st_ in guards]
+            guards = [(s_, st_) for s_, st_ in guards if st_]
+        ctx.check(not guards, 'R-DUAL', mod.path, 'LocalConcurrences._reset_wp_mask', 'reset undoes marks unconditionally',
+                  'the pass that makes consumed cells available again runs only under a test of self.%s: cells negated on a path that does not establish that state '
+                  '(candidates kbest_matches discards) stay consumed after restart=True / keep=False' % (', self.'.join(guards[0][1]) if guards else ''),
+                  guards[0][0].line if guards else g.line)
         ctx.check(bool(restores), 'R-DUAL', mod.path, 'LocalConcurrences._reset_wp_mask', 'reset undoes value marks',
                   'kbest_matches (non-compact) marks consumed cells by negating their values, but the non-compact reset only rewrites the mask: after a search, '
                   'restart=True / keep=False do not make the consumed cells available again, so the same call sequence on one object returns different matches', g.line)
